@@ -320,6 +320,8 @@ def jobs(tier):
     for op in GROUP_OPS:
         presortable = op != 'groupcountdistinctvalues'
         add(op, N, 'O')
+        if op in ('aggregate-list', 'rowreduce', 'groupselectlast', 'fold') or (not q and op != 'mergeduplicates'):
+            add(op, 3 if (op == 'aggregate-list' or not q) else 2, 'X')
         if op in ('aggregate-len', 'aggregate-list', 'rowreduce', 'groupselectfirst', 'groupselectmin', 'mergeduplicates',
                   'fold') or not q:
             add(op, N, 'M' if N == 3 else 'Md2')
